@@ -119,8 +119,9 @@ class LoopSpec:
     unroll             -> int: unroll that many times instead of cutting (concrete bound)
     """
     def __init__(self, inv=None, havoc=None, decreases=None, carried=None, index=None,
-                 frame=None, step=None, on_head=None, on_init=None, keep=(), target_after='last', on_break=None):
+                 frame=None, step=None, on_head=None, on_init=None, keep=(), target_after='last', on_break=None, on_exit=None):
         self.on_break = on_break    # on_break(I, env, k) -> obligations checked when the body leaves the loop with `break`
+        self.on_exit = on_exit      # on_exit(I, env, n) -> obligations checked when the loop ends normally after n iterations
         self.keep = tuple(keep)     # loop-carried locals that deliberately keep their pre-loop (symbolic) value
         # 'last': after the loop the target holds the last element (branches on an empty sequence);
         # 'unknown': the target is marked possibly-unbound / stale instead (no branch; reading it is an error)
@@ -2412,6 +2413,9 @@ class Interp:
             raise PathEnd()
         env.vars.pop(idxname, None)
         env.vars[f'{idxname}_final'] = k
+        if getattr(spec, 'on_exit', None):
+            for nm, g in spec.on_exit(self, env, k):
+                e.prove(f'{tag}/exit/{nm}', g)
         if view is not None:
             # after the loop the target names hold the last element (if any) unless the body rebinds them
             tnames = assigned_names([ast.Assign(targets=[s.target], value=ast.Constant(0))])
